@@ -85,6 +85,8 @@ def gen_cases(tier, seed):
     for cls in factory.CLASSES:
         yield {"kind": "setters", "cls": cls, "rate": "1kHz", "start": "iso"}
     yield {"kind": "setters", "cls": "BasebandSignal", "rate": "3.7GHz", "start": "none"}
+    for cls in factory.CLASSES:
+        yield {"kind": "leap", "cls": cls}
     for cls, rate, st in list(b["bfs_cfg"]) + [("RadioSignal", "1kHz", "tai")]:
         yield {"kind": "bfs", "cls": cls, "rate": rate, "start": st, "L": b["bfs_L"], "depth": b["bfs_depth"]}
 
@@ -610,9 +612,61 @@ def case_setters(case, res):
     res.sample({"cls": cls, "assignment history": ["read", "rate=3 kHz", "use"]}, 1)
 
 
+def case_leap(case, res):
+    """Signals that run through the leap second at the end of 2016 (a UTC day of 86 401 s): elapsed time is what counts, so the
+    oracle is astropy's own Time difference (taken through TAI); and a frequency subscript next to a stepped time slice."""
+    cls = case["cls"]
+    for rate_name, t0 in (("1Hz", "2016-12-31T23:59:50.25"), ("1kHz", "2016-12-31T23:59:59.9985"), ("3Hz", "2016-12-31T12:00:00")):
+        L = 40
+        z = factory.make_encoded(cls, L, nchan=2, rate_name=rate_name, start_name="none")
+        z = type(z).like(z, start_time=Time(t0, format="isot", scale="utc", precision=9))
+        srv = z.sample_rate.to_value(u.Hz)
+        tol = 1e-9 + 2e-11 * 86400
+        def chk(out, dropped, step, n, what):
+            res.transitions += 1
+            res.traces += 1
+            sub = {"what": what, "rate": rate_name, "t0": t0}
+            if len(out) != n:
+                res.violation("leap|length", f"{what}: {len(out)} samples, expected {n}", case, sub)
+                return
+            el = (out.start_time - z.start_time).to_value(u.s)
+            if abs(el - dropped / srv) > tol:
+                res.violation("leap|start_time", f"{what}: start_time is {el!r} s after the input's, dropped samples / rate = "
+                              f"{dropped / srv!r} s (signal running through a leap second)", case, sub)
+                return
+            span = (out.stop_time - out.start_time).to_value(u.s)
+            if abs(span - n * step / srv) > tol:
+                res.violation("leap|stop_time", f"{what}: stop - start = {span!r} s, expected {n * step / srv!r}", case, sub)
+                return
+            if n:
+                mid = out.start_time + ((n - 0.5) * step / srv) * u.s
+                if not bool(out.contains(mid)) or bool(out.contains(out.start_time + ((n + 0.5) * step / srv) * u.s)):
+                    res.violation("leap|contains", f"{what}: membership disagrees with [start, stop)", case, sub)
+                    return
+            res.hits["signal running through a leap second"] += 1
+        for a in (1, 5, 12, 30):
+            for st in (1, 2, 3):
+                out = z[a::st]
+                chk(out, a, st, len(range(a, L, st)), f"z[{a}::{st}]")
+                if cls != "Signal":
+                    # a channel subscript next to the stepped time slice must not change the time labels
+                    for fs, nm in ((slice(None), ":"), (slice(0, 1), "0:1")):
+                        o2 = z[a::st, fs]
+                        chk(o2, a, st, len(range(a, L, st)), f"z[{a}::{st}, {nm}]")
+                        if abs(hz(o2.sample_rate) - hz(out.sample_rate)) > 0:
+                            res.violation("leap|time+freq subscript sample_rate", f"z[{a}::{st}, {nm}].sample_rate = {o2.sample_rate!r}, "
+                                          f"z[{a}::{st}].sample_rate = {out.sample_rate!r}", case, {"a": a, "step": st})
+        chk(pb.fast_len(z[7:]), 7, 1, 32, "fast_len(z[7:])")
+        chk(z[3:][4:][::2][1:], 9, 2, len(range(9, L, 2)), "z[3:][4:][::2][1:]")
+        if np.asarray(z.data).dtype.kind in "fc":
+            chk(pb.time_shift(z, 12.0, crop=True), 12, 1, L - 12, "time_shift(z, 12, crop=True)")
+            chk(pb.snippet(z, 11, 20), 11, 1, 20, "snippet(z, 11, 20)")
+    res.sample({"cls": cls, "leap": "2016-12-31"}, 1)
+
+
 def check_case(case):
     res = report.Result()
-    {"slices": case_slices, "setters": case_setters, "crops": case_crops, "dedisp": case_dedisp, "bfs": case_bfs}[case["kind"]](case, res)
+    {"leap": case_leap, "slices": case_slices, "setters": case_setters, "crops": case_crops, "dedisp": case_dedisp, "bfs": case_bfs}[case["kind"]](case, res)
     return res
 
 
@@ -622,7 +676,8 @@ def main(argv=None):
         required_hits=["negative start bound", "out-of-range bound clamped", "stepped slice", "empty result",
                        "no start time", "contains inside", "contains outside", "contains probe on another time scale", "shift crop exceeds length",
                        "mixed-sign shift crop", "block shorter than sweep", "incoherent traced",
-                       "incoherent front crop", "bfs: state reached again by another path", "assignment histories"],
+                       "incoherent front crop", "bfs: state reached again by another path", "assignment histories",
+                       "signal running through a leap second"],
         assumptions=["astropy Time two-double (jd1, jd2) is the representation of absolute time; budget 2 ulp_T (2^-52 day) "
                      "per operation plus 8*2^-53 relative on the elapsed offset",
                      "FFT-based crops are checked here for their ledger only (values in C03/C05)",
